@@ -44,15 +44,18 @@ type refNotary struct {
 	used     map[string][]byte    // address name -> challenge most recently presented by that address ("replay" material)
 	throttle map[string]bool      // address names recorded by the flashback memory
 	epoch    int
+	// replayFor: addresses for which presented challenges are remembered as replay material (quick tier: the
+	// issuer only, which keeps the canonical state space small; thorough: both)
+	replayFor map[string]bool
 }
 
-func newRef() *refNotary {
-	return &refNotary{awaiting: map[string]bool{}, sealed: map[string]string{}, chal: map[string]challenge{}, used: map[string][]byte{}, throttle: map[string]bool{}}
+func newRef(thorough bool) *refNotary {
+	return &refNotary{replayFor: map[string]bool{"A": true, "B": thorough}, awaiting: map[string]bool{}, sealed: map[string]string{}, chal: map[string]challenge{}, used: map[string][]byte{}, throttle: map[string]bool{}}
 }
 
 // parties of the menu transactions (all of them are A -> B).
-var txIssuer = map[string]string{"c1": "A", "s1": "A", "c1x": "A", "fund": "R"}
-var txReceiver = map[string]string{"c1": "B", "s1": "B", "c1x": "B", "fund": "A"}
+var txIssuer = map[string]string{"c1": "A", "s1": "A", "c1x": "A", "m1": "A", "fund": "R"}
+var txReceiver = map[string]string{"c1": "B", "s1": "B", "c1x": "B", "m1": "B", "fund": "A"}
 
 func (r *refNotary) awaitingOf(addr string) []string {
 	var out []string
@@ -111,6 +114,7 @@ func (r *refNotary) proofDefect(addr, kind string) string {
 // expectation of the reference for one call.
 type expectation struct {
 	class      string
+	alt        string   // a second acceptable class ("" = none), where the property leaves the answer open
 	txs        []string // expected transactions in the answer (Waiting / TransactionsInDAG / Saved), nil = not compared
 	compareTxs bool
 	invalidSig bool   // the request carries a signature that does not verify for the key it claims
@@ -133,11 +137,11 @@ func (r *refNotary) step(ev string) expectation {
 	switch p[0] {
 	case "Propose":
 		switch p[1] {
-		case "c1":
-			if r.awaiting["c1"] {
+		case "c1", "m1": // carries data (m1: data and spice): held as awaiting, never sealed by the proposal
+			if r.awaiting[p[1]] {
 				e.class = "processing"
 			} else {
-				r.awaiting["c1"] = true
+				r.awaiting[p[1]] = true
 				e.class = "ok"
 			}
 		case "s1":
@@ -159,35 +163,37 @@ func (r *refNotary) step(ev string) expectation {
 			break
 		}
 		e.sealsBy = "receiver"
+		ct := contractLabel(p, 2)
 		switch {
-		case !r.awaiting["c1"]:
+		case !r.awaiting[ct]:
 			e.class = "no-data"
 		default:
-			delete(r.awaiting, "c1")
-			if _, done := r.sealed["c1"]; done {
+			delete(r.awaiting, ct)
+			if _, done := r.sealed[ct]; done {
 				e.class = "processing" // taken off the awaiting list, refused by the ledger: never sealed twice
 			} else {
-				seal("c1", "confirm", "A", "B")
+				seal(ct, "confirm", "A", "B")
 				e.class = "ok"
 			}
 		}
 	case "Reject":
+		ct := contractLabel(p, 2)
 		switch p[1] {
 		case "B":
 			e.sealsBy = "receiver"
-			if !r.awaiting["c1"] {
+			if !r.awaiting[ct] {
 				e.class = "no-data"
 				break
 			}
-			delete(r.awaiting, "c1")
-			if _, done := r.sealed["c1"]; done {
+			delete(r.awaiting, ct)
+			if _, done := r.sealed[ct]; done {
 				e.class = "processing"
 			} else {
-				seal("c1", "reject", "A")
+				seal(ct, "reject", "A")
 				e.class = "ok"
 			}
 		case "A", "XX": // validly signed, but not by the receiver
-			if !r.awaiting["c1"] {
+			if !r.awaiting[ct] {
 				e.class = "no-data"
 			} else {
 				e.class = "processing"
@@ -203,7 +209,7 @@ func (r *refNotary) step(ev string) expectation {
 		e.guarded = true
 		e.noProof = r.proofDefect(addr, kind)
 		e.invalidSig = kind == "wrongkey"
-		if kind == "cur" {
+		if kind == "cur" && r.replayFor[addr] {
 			r.used[addr] = r.chal[addr].blob
 		}
 		if e.noProof != "" {
@@ -212,7 +218,9 @@ func (r *refNotary) step(ev string) expectation {
 		}
 		e.txs, e.compareTxs = r.awaitingOf(addr), true
 		if len(e.txs) == 0 {
-			e.class = "processing"
+			// nothing awaiting: the code answers "processing" (list key absent or empty) or, when the cache's
+			// remove() left separator residue in the list value, "ok" with an empty list; the property asks for neither
+			e.class, e.alt = "processing", "ok"
 		} else {
 			e.class = "ok"
 		}
@@ -221,7 +229,7 @@ func (r *refNotary) step(ev string) expectation {
 		e.guarded = true
 		e.noProof = r.proofDefect(addr, kind)
 		e.invalidSig = kind == "wrongkey"
-		if kind == "cur" {
+		if kind == "cur" && r.replayFor[addr] {
 			r.used[addr] = r.chal[addr].blob
 		}
 		was := r.throttle[addr]
@@ -304,7 +312,7 @@ func (m *model) Setup() { m.fx.setup() }
 
 func (m *model) Init() {
 	m.fx.init()
-	m.ref = newRef()
+	m.ref = newRef(m.thorough)
 	m.capture = false
 	m.diverged = false
 }
@@ -319,27 +327,37 @@ func (m *model) Enabled() []string {
 		"Confirm:B", "Confirm:X", "Confirm:none",
 		"Reject:B", "Reject:A", "Reject:X",
 		"Data:A", "Data:B",
-		"Saved:s1:A", "Saved:s1:X", "Saved:c1:A", "Saved:c1:X",
+		"Saved:s1:A", "Saved:c1:A", "Saved:c1:X",
 		"Balance:A", "Balance:X", "Balance:mismatch",
-		"Reject:XX", "Saved:c1:XX",
+		// the paid contract m1 (data and spice)
+		"Propose:m1", "Confirm:B:m1", "Confirm:X:m1", "Reject:B:m1", "Saved:m1:A",
+	}
+	if m.thorough {
+		out = append(out, "Reject:XX", "Saved:c1:XX", "Saved:s1:X")
 	}
 	for _, a := range []string{"A", "B"} {
 		c, ok := m.ref.chal[a]
 		if ok {
-			out = append(out, "Waiting:"+a+":cur", "Waiting:"+a+":wrongkey")
+			out = append(out, "Waiting:"+a+":cur")
+			if a == "A" || m.thorough {
+				out = append(out, "Waiting:"+a+":wrongkey")
+			}
 		}
 		if _, ok2 := m.ref.chal[other(a)]; ok2 {
 			out = append(out, "Waiting:"+a+":other")
 		}
 		// a replay is a distinct request only if the presented challenge is no longer the stored one
-		if u, ok3 := m.ref.used[a]; ok3 && !(ok && bytes.Equal(u, c.blob)) {
+		if u, ok3 := m.ref.used[a]; ok3 && !(ok && bytes.Equal(u, c.blob)) && (a == "A" || m.thorough) {
 			out = append(out, "Waiting:"+a+":replay")
 		}
 	}
 	if _, ok := m.ref.chal["A"]; ok {
-		out = append(out, "TransactionsInDAG:A:cur", "TransactionsInDAG:A:wrongkey")
+		out = append(out, "TransactionsInDAG:A:cur")
+		if m.thorough {
+			out = append(out, "TransactionsInDAG:A:wrongkey")
+		}
 	}
-	if _, ok := m.ref.chal["B"]; ok {
+	if _, ok := m.ref.chal["B"]; ok && m.thorough {
 		out = append(out, "TransactionsInDAG:B:cur")
 	}
 	maxEpoch := 1
@@ -432,7 +450,7 @@ func (m *model) Apply(ev string) string {
 		}
 	}
 	m.rp = rp
-	if rp.class != m.exp.class {
+	if rp.class != m.exp.class && rp.class != m.exp.alt {
 		m.diverged = true
 	}
 	if capture {
@@ -465,7 +483,7 @@ func (m *model) Key() string {
 		}
 		ch = append(ch, a+":"+st+"/"+u)
 	}
-	k := fmt.Sprintf("%s B[%s] F[%s] C[%s] E%d", s.stateOf(), strings.Join(s.balances, " "), strings.Join(s.flash, " "), strings.Join(ch, " "), m.ref.epoch)
+	k := fmt.Sprintf("%s R[%s] B[%s] F[%s] C[%s] E%d", s.stateOf(), strings.Join(s.residue, " "), strings.Join(s.balances, " "), strings.Join(s.flash, " "), strings.Join(ch, " "), m.ref.epoch)
 	h := sha256.Sum256([]byte(k))
 	return hex.EncodeToString(h[:12])
 }
@@ -509,7 +527,7 @@ func (m *model) Check(ev, res string) []common.Violation {
 		return out
 	}
 	// 1. response class agrees with the reference
-	if rp.class != e.class {
+	if rp.class != e.class && rp.class != e.alt {
 		add("C16.response-class", fmt.Sprintf("C16.response-class-differs/%s/%s->%s", rpc, e.class, rp.class),
 			fmt.Sprintf("%s answered %q (%s), the reference says %q", ev, rp.class, rp.errText, e.class))
 	}
@@ -535,7 +553,7 @@ func (m *model) Check(ev, res string) []common.Violation {
 		wantLedger = append(wantLedger, l)
 	}
 	sort.Strings(wantLedger)
-	for _, l := range []string{"c1", "s1", "c1x"} {
+	for _, l := range []string{"c1", "s1", "c1x", "m1"} {
 		if n := count(m.post.ledger, l); n > 1 {
 			add("C16.sealed-once", "C16.sealed-twice/"+rpc, fmt.Sprintf("after %s transaction %s is sealed in %d vertices", ev, l, n))
 		}
@@ -549,28 +567,32 @@ func (m *model) Check(ev, res string) []common.Violation {
 			fmt.Sprintf("after %s the ledger holds [%s], the reference says [%s]", ev, strings.Join(m.post.ledger, " "), strings.Join(wantLedger, " ")))
 	}
 	// 4. property-level sealing rule, independent of the class prediction: what this call newly sealed
-	for _, l := range []string{"c1", "c1x", "s1"} {
+	for _, l := range []string{"c1", "c1x", "m1", "s1"} {
 		if count(m.post.ledger, l) <= count(m.pre.ledger, l) {
 			continue
 		}
 		m.counters["sealed/"+l+"/by-"+rpc]++
 		contract := l != "s1"
+		who := strings.Split(variant, ":")[0]
+		acted := (rpc == "Confirm" || rpc == "Reject") && e.sealsBy == "receiver" && contractLabel(strings.Split(ev, ":"), 2) == l
 		switch {
-		case contract && !((rpc == "Confirm" || rpc == "Reject") && e.sealsBy == "receiver"):
+		case contract && !acted:
 			cause := variant
 			switch {
-			case rpc == "Confirm" && variant == "X":
+			case rpc == "Confirm" && who == "X":
 				cause = "wrong-key"
-			case rpc == "Confirm" && variant == "none":
+			case rpc == "Confirm" && who == "none":
 				cause = "unsigned"
-			case rpc == "Reject" && variant == "A":
+			case rpc == "Reject" && who == "A":
 				cause = "signed-by-issuer"
-			case rpc == "Reject" && variant == "X":
+			case rpc == "Reject" && who == "X":
 				cause = "wrong-key"
-			case rpc == "Reject" && variant == "XX":
+			case rpc == "Reject" && who == "XX":
 				cause = "signed-by-stranger"
 			case rpc == "Propose":
 				cause = "on-proposal"
+			case !acted && e.sealsBy == "receiver":
+				cause = "other-contract"
 			}
 			add("C16.receiver-acts", "C16.sealed-without-receiver/"+rpc+"/"+cause,
 				fmt.Sprintf("%s sealed contract %s although the receiver did not act on it", ev, l))
@@ -605,7 +627,7 @@ func (m *model) Check(ev, res string) []common.Violation {
 		}
 	}
 	// 7. content of the answer
-	if rp.class == "ok" && e.class == "ok" && e.compareTxs {
+	if rp.class == "ok" && (e.class == "ok" || e.alt == "ok") && e.compareTxs {
 		if strings.Join(rp.txs, ",") != strings.Join(e.txs, ",") {
 			add("C16.response-content", "C16.response-content-differs/"+rpc,
 				fmt.Sprintf("%s returned %v, the reference says %v", ev, rp.txs, e.txs))
